@@ -6,7 +6,7 @@ it is returned under; flags with the condition they are inserted under), and the
 over bit slices of the reads, not as text - with the table below, which is written from the standard, not from the code.
 """
 import re
-from ..bitslice import (Table, TRUE, FALSE, one, dnf_and, dnf_or, dnf_not, dnf_diff, fmt_cond, TooBig, READS)
+from ..bitslice import (Table, TRUE, FALSE, one, dnf_and, dnf_or, dnf_not, dnf_diff, fmt_cond, TooBig, READS, S_open, CoSet)
 from ..report import where_of
 from ..facts import Unanalysable
 
@@ -62,7 +62,13 @@ class Cond:
         if t == '!': return dnf_not(self.factor())
         if t == 'true': return TRUE
         if t == 'false': return FALSE
-        if t.startswith('`'): return one(('A', t[1:-1], True))
+        if t.startswith('`') and self.peek() in ('==', '!='):
+            # `value`==c on an integer value that is not a read: a decision on the value itself (universe unknown)
+            op = self.next(); c = int(self.next())
+            d = one(S_open(t[1:-1], [c]))
+            return d if op == '==' else dnf_not(d)
+        if t.startswith('`') and self.peek() != 'is': return one(('A', t[1:-1], True))
+        if t.startswith('`'): t = t[1:-1]        # `any expression` is A/B : a variant test on a value that is not a plain name
         nxt = self.peek()
         if nxt == 'is':
             self.next()
@@ -99,7 +105,7 @@ class Cond:
             if n is not None:
                 if not vals: return FALSE
                 if len(vals) == n: return TRUE
-            d = one(('S', t, n, vals))
+            d = one(('S', t, n, vals)) if n is not None else one(S_open(t, vals))
             return dnf_not(d) if neg else d
         return one(('A', t, True))
 
